@@ -371,6 +371,11 @@ func Run(cs Case, c *vrt.Ctx) {
 		text := oj.JSON(tree, sortOpt)
 		sp := oj.Parser{}
 		gp := gen.Parser{}
+		if len(text)%3 == 0 {
+			// every third text goes to a parser whose last call a reader error ended with
+			// containers open (C07 says it is as good as new)
+			gp = *vet.GenParserAfterAbort()
+		}
 		sv, err1 := sp.Parse([]byte(text))
 		gv, err2 := gp.Parse([]byte(text))
 		if (err1 != nil) != (err2 != nil) {
@@ -480,6 +485,10 @@ func Run(cs Case, c *vrt.Ctx) {
 					gr := &gen.Parser{}
 					if size == 3 {
 						gr = vet.GenParser()
+					}
+					if size == 5 {
+						// a parser whose last call a reader error ended with containers open
+						gr = vet.GenParserAfterAbort()
 					}
 					rv, rerr := gr.ParseReader(&sizedReader{data: []byte(txt), size: size})
 					var z any
